@@ -391,7 +391,7 @@ def diag_with_member(err):
 
 def member_of(err):
     """Best-effort name of the member whose instantiation failed, from g++ / clang++ / ld diagnostics; identifiers only."""
-    lines = err.splitlines()
+    lines = err.replace("\u2018", "'").replace("\u2019", "'").splitlines()
     idx = next((i for i, ln in enumerate(lines) if re.search(r"\berror\b|undefined reference", ln)), None)
     if idx is None:
         return None
@@ -415,6 +415,107 @@ def member_of(err):
     name = re.sub(r"\(.*$", "", name).strip()
     name = name.split(" ")[-1] if "operator" not in name else name[name.index(name.split("operator")[0].split(" ")[-1]):]
     return name[:80] or None
+
+
+def run_inst(ctx, bud, headers, cfgs, workers=WORKERS):
+    """U5. One TU per (header, configuration) with every judged entry of the table; on failure every entry is built alone
+    to attribute it. -> results[(header, cfg)] = list of (entry, diag) that fail ([] = all entries fine), n_entries judged."""
+    from instantiations import INST
+    results = {}
+    skipped = [0]
+    cases = [(h, c) for c in cfgs for h in headers if h in INST]
+
+    def job(h, c):
+        if bud.left() < 0:
+            with _lock:
+                skipped[0] += 1
+            return
+        entries = [e for e in INST[h]["entries"] if e["mode"] != "excluded"]
+        ok, diag = build_inst_tu("all", h, entries, c)
+        stat(ctx, "tool_runs", 1)
+        bad = []
+        if not ok:
+            for i, e in enumerate(entries):
+                ok1, d1 = build_inst_tu("e%d" % i, h, [e], c)
+                stat(ctx, "tool_runs", 1)
+                if not ok1:
+                    bad.append((e, d1))
+            if not bad:
+                bad.append(({"id": "all-entries-together", "mode": "combined", "code": ""}, diag))
+        with _lock:
+            results[(h, c)] = bad
+
+    vlib.parallel([(lambda h=h, c=c: job(h, c)) for h, c in cases], workers=workers)
+    if skipped[0]:
+        ctx.cap("U5 instantiation: deadline reached, %d of %d (header, configuration) translation units were not built" % (skipped[0], len(cases)))
+    missing = [h for h in headers if h not in INST]
+    if missing:
+        ctx.note("headers without an entry in instantiations.py (U5 does not cover them): %s" % ", ".join(missing))
+    return results
+
+
+def judge_inst(ctx, results, broken=(), clo=None):
+    from instantiations import INST
+    clo = clo or {}
+    agg = collections.OrderedDict()  # (header, entry id) -> [(cfg, diag, mode)]
+    run = collections.defaultdict(list)
+    for (h, c), bad in sorted(results.items()):
+        run[h].append(c)
+        for e, diag in bad:
+            if (h, c) in broken or any((g, c) in broken for g in clo.get(h, ())) or any((g, c) in broken for g in INST[h].get("also", ())):
+                stat(ctx, "implied_failures_not_reported_separately", 1)
+                continue
+            agg.setdefault((h, e["id"]), []).append((c, diag, e["mode"]))
+    # one defect in a base class or in a shared helper fails several entries of the header at the same source location:
+    # report it once, under the first entry (table order) that hits it, and name the others in the message
+    order = {}
+    for h in INST:
+        for n, e in enumerate(INST[h]["entries"]):
+            order[(h, e["id"])] = n
+    groups = collections.OrderedDict()
+    for (h, eid), lst in sorted(agg.items(), key=lambda kv: (kv[0][0], order.get(kv[0], 999))):
+        lst.sort()
+        c0, diag0, mode = lst[0]
+        m = re.match(r"\[in ([^\]]+)\] ", diag0)
+        member = (m.group(1).split("::")[-1] if m else "unattributed").replace("/", "_")
+        loc = re.search(r"([\w/]+\.hpp:\d+)", diag0)
+        key = (h, member, loc.group(1) if loc else diag0[-80:])
+        groups.setdefault(key, []).append((eid, lst, mode))
+    for (h, member, _), items in groups.items():
+        eid, lst, mode = items[0]
+        c0, diag0, _m = lst[0]
+        fail = sorted(set(c for _, l, _ in items for c, _, _ in l))
+        sig = "C19/%s:%s/%s/instantiation-ill-formed" % (h, eid.replace("/", "|"), member)
+        what = {"explicit": "the explicit instantiation definition of this class (every non-template member) built on the unchanged tree in all 12 configurations when instantiations.py was written and does not build now",
+                "calls": "the calls to the constructor / member / function templates of this entry built on the unchanged tree in all 12 configurations and do not build now",
+                "combined": "every entry builds alone but the translation unit with all entries of the header does not"}[mode]
+        others = "" if len(items) == 1 else " The same diagnostic also fails the entries: %s." % "; ".join("'%s'" % x[0] for x in items[1:])
+        msg = "%s, entry '%s' [%s]: %s. Fails in %d of %d configurations of this tier (%s; class: %s). First diagnostic [%s]: %s.%s Expected: compiles -O0 and links in every configuration." % (
+            h, eid, mode, what, len(fail), len(run[h]), "; ".join(cfg_name(c) for c in fail), cfgclass(fail, run[h]), cfg_name(c0), diag0, others)
+        ctx.violation(sig, msg, harness="c19-inst", args=[json.dumps({"kind": "inst", "header": h, "entry": eid, "cfg": list(c0)})])
+
+
+def probe_excluded(ctx, bud, cfgs):
+    """entries in mode 'calls' that are a FALLBACK, and 'excluded' entries, keep the ill-formed explicit form: tell the evidence when it became well-formed"""
+    from instantiations import INST
+    jobs = [(h, e, c) for h in INST for e in INST[h]["entries"] if e.get("explicit_probe") for c in cfgs]
+    if bud.left() < 60:
+        return
+
+    def job(i, h, e, c):
+        ok, _ = build_inst_tu("xp%d" % i, h, [dict(e, code=e["explicit_probe"])], c)
+        stat(ctx, "tool_runs", 1)
+        return ok
+
+    res = vlib.parallel([(lambda i=i, j=j: job(i, *j)) for i, j in enumerate(jobs)], workers=WORKERS)
+    n_ill = 0
+    for (h, e, c), ok in zip(jobs, res):
+        if ok:
+            ctx.note("capability probe: %s '%s' is NOW WELL-FORMED as an explicit instantiation / excluded member under %s; instantiations.py can be upgraded (recorded reason it was not: %s)" % (h, e["id"], cfg_name(c), e.get("why")))
+        else:
+            n_ill += 1
+    stat(ctx, "u5_capability_probes_still_ill_formed", n_ill)
+    stat(ctx, "u5_capability_probes", len(jobs))
 
 
 # ---- U3: link ------------------------------------------------------------------------------------------------------
@@ -761,10 +862,12 @@ def tier_space(tier):
             "u3_keep": [("g++", "c++14", "fno-exceptions")],
             "u4": [("g++", "c++14", "exceptions"), ("g++", "c++14", "fno-exceptions"), ("clang++", "c++20", "exceptions"), ("clang++", "c++20", "fno-exceptions")],
             "u2": [],
+            "u5": [("g++", "c++14", "exceptions"), ("g++", "c++20", "exceptions"), ("clang++", "c++14", "exceptions"), ("clang++", "c++20", "exceptions"),
+                   ("g++", "c++17", "fno-exceptions"), ("clang++", "c++17", "fno-exceptions")],
         }
     return {"u1_single": ALL_CFGS, "u1_double": ALL_CFGS, "u3": ALL_CFGS, "u3_keep": [c for c in ALL_CFGS if c[0] == "g++"], "u4": ALL_CFGS,
             # covering array first: if a deadline cuts U2 short, the completed configurations still pair every two configuration values
-            "u2": COVERING6 + [c for c in ALL_CFGS if c not in COVERING6]}
+            "u2": COVERING6 + [c for c in ALL_CFGS if c not in COVERING6], "u5": ALL_CFGS}
 
 
 def _run(ctx):
@@ -817,6 +920,11 @@ def _run(ctx):
     cases1 = ([(h, "single", c) for c in sp["u1_single"] if c[0] == "g++" for h in headers] + [(h, "double", c) for c in sp["u1_double"] for h in headers]
               + [(h, "single", c) for c in sp["u1_single"] if c[0] != "g++" for h in headers])
     res1 = run_includes(ctx, bud, cases1, max(4, WORKERS - 6))
+    stat(ctx, "u1_wall_s", time.time() - t0)
+    # U5 (execution; judged after U1 because failures implied by a broken single include are not reported again)
+    t5 = time.time()
+    res5 = run_inst(ctx, bud, headers, sp["u5"], max(4, WORKERS - 6))
+    stat(ctx, "u5_wall_s", time.time() - t5)
     th3.join()
     th4.join()
     for name in ("u3", "u4"):
@@ -837,6 +945,31 @@ def _run(ctx):
                 "result": res1.get(("xjson.hpp", "single", ALL_CFGS[11]), ("not run",))[0]})
     ctx.sample({"unit": "U1", "case": "xmultimethods.hpp single include", "configuration": cfg_name(ALL_CFGS[5]), "tu": tu_text(["xmultimethods.hpp"]),
                 "result": res1.get(("xmultimethods.hpp", "single", ALL_CFGS[5]), ("not run",))[0]})
+
+    # U5
+    from instantiations import INST
+    judge_inst(ctx, res5, broken, clo)
+    n5 = 0
+    modes = collections.Counter()
+    for (h, c) in res5:
+        for e in INST[h]["entries"]:
+            if e["mode"] != "excluded":
+                n5 += 1
+                nt.add(("inst", h, e["id"], c))
+    for h in INST:
+        for e in INST[h]["entries"]:
+            modes[e["mode"] + ("-fallback" if e["mode"] == "calls" and e.get("explicit_probe") else "")] += 1
+    evaluations += n5
+    stat(ctx, "u5_entry_cases", n5)
+    stat(ctx, "u5_translation_units", len(res5))
+    for k, v in sorted(modes.items()):
+        stat(ctx, "u5_table_entries[%s]" % k, v)
+    if res5:
+        e_s = INST["xspan_impl.hpp"]["entries"][1]
+        ctx.sample({"unit": "U5", "case": "xspan_impl.hpp entry '%s' [%s]" % (e_s["id"], e_s["mode"]), "configuration": cfg_name(sp["u5"][0]), "code": e_s["code"],
+                    "how": "built -O0 and linked in one TU with the other %d entries of the header; result: %s" % (len(INST["xspan_impl.hpp"]["entries"]) - 1, "ok" if not res5.get(("xspan_impl.hpp", sp["u5"][0]), [1]) else "see violations")})
+    if not quick:
+        probe_excluded(ctx, bud, [("g++", "c++14", "exceptions"), ("clang++", "c++20", "exceptions")])
 
     # U3
     units3, r3 = bg["u3"][1]
@@ -892,21 +1025,26 @@ def _run(ctx):
         "U3 a 1-TU and a 2-TU program whose TUs include all headers (TU0 alphabetical, TU1 reverse order) and call or odr-use every non-template function, compiled -O0, linked, run x %s; "
         "TU0 once more with g++ -fkeep-inline-functions (every non-template inline function is emitted whether called or not) and its symbol table read with nm: no symbol of an xtl namespace may be undefined, x %s; "
         "U4 %d error-path scenarios, each in its own process x %s. "
-        "evaluations = judged cases (U1 + U2 TUs, U3 programs, U4 runs). distinct_nontrivial = distinct cases that are not degenerate by this rule: U1 cases of headers that contribute "
+        "U5 per header one TU with EVERY entry of the committed table instantiations.py (%d entries: explicit instantiation definitions of the class templates with 1-3 argument sets each -- these instantiate every "
+        "non-template member --, and functions that call every constructor / member / function template and operator once; %d classes whose explicit instantiation is ill-formed on the unchanged tree are covered by calls instead), "
+        "compiled -O0 with code generation and LINKED x %s; a failing TU is rebuilt entry by entry. "
+        "evaluations = judged cases (U1 + U2 TUs, U3 programs, U4 runs, U5 (entry, configuration) pairs). distinct_nontrivial = distinct cases that are not degenerate by this rule: U1 cases of headers that contribute "
         "declarations (all but the macro-only xtl_config.hpp); U2 pairs (a,b) where b is NOT already included transitively by a (otherwise the second include is skipped by its guard) "
-        "and neither is macro-only, the transitive include relation being read from the tree; U3 every program; U4 the -fno-exceptions run of a scenario only if the same scenario was "
+        "and neither is macro-only, the transitive include relation being read from the tree; U3 every program; every U5 (entry, configuration) pair (each instantiates library code); U4 the -fno-exceptions run of a scenario only if the same scenario was "
         "observed to raise its documented exception in the exceptions-enabled build with the same compiler and -std (so the call really is an error path)" % (
             len(headers), names(sp["u1_single"]), names(sp["u1_double"]), len(headers) * (len(headers) - 1), names(sp["u2"]) if sp["u2"] else "NO configuration (thorough tier only)",
-            names(sp["u3"]) + (" (a covering array: every pair of configuration values occurs)" if quick else ""), names(sp["u3_keep"]), len(tab), names(sp["u4"])))
+            names(sp["u3"]) + (" (a covering array: every pair of configuration values occurs)" if quick else ""), names(sp["u3_keep"]), len(tab), names(sp["u4"]),
+            sum(1 for h in INST for e in INST[h]["entries"] if e["mode"] != "excluded"), sum(1 for h in INST for e in INST[h]["entries"] if e["mode"] == "calls" and e.get("explicit_probe")), names(sp["u5"])))
     ctx.assumptions += [
         "toolchain: g++ 12 and clang++ 14, both on libstdc++ 12, x86-64 Linux; a missing #include that libstdc++ 12 happens to provide transitively is invisible (no second standard library is installed)",
-        "-fsyntax-only instantiates only what the witness uses: member templates that nothing uses are parsed, not instantiated",
+        "U1/U2 (-fsyntax-only) instantiate only what the witness uses; U5 instantiates what instantiations.py lists: every non-template member of the listed specialisations and the listed calls. "
+        "Member templates / argument sets that are not in the table are parsed, not instantiated; members that are ill-formed on the unchanged tree for every argument set tried are listed there as 'excluded' and only probed",
         "xjson.hpp is in scope (it is in XTL_HEADERS and is installed; CMake treats nlohmann_json as an optional dependency): it is compiled with ONLY the nlohmann/ directory of the installed nlohmann_json visible; its dependency's own headers are not judged",
         "the configuration space is the one the property names (compiler x -std x exceptions); NDEBUG, -fno-rtti, TCB_SPAN_* / HALF_* user macros and other platforms' #if branches are not enumerated",
         "U4 judges only calls that raise a documented exception when exceptions are enabled; any end of the process inside the failing call other than SIGSEGV/SIGBUS/SIGFPE counts as termination",
     ]
     if quick:
-        ctx.assumptions.append("quick tier: header pairs (U2), double include in 10 of 12 configurations, link in 6 of 12 and error paths in 8 of 12 configurations are left to the thorough tier, "
+        ctx.assumptions.append("quick tier: header pairs (U2), double include in 10 of 12 configurations, link in 6 of 12 (both compilers link the 2-TU program at -O0 under C++14), error paths in 8 of 12 and the instantiation TUs in 6 of 12 configurations are left to the thorough tier, "
                                "which enumerates the full product; the two include orders of U3 place every pair of headers in both relative orders")
 
 
@@ -949,6 +1087,21 @@ def _replay(ctx, rec):
         c, k = _tup(d["unit"][0]), d["unit"][1]
         units, res = exec_links(ctx, bud, headers, [] if k else [c], [c] if k else [], 1)
         judge_links(ctx, headers, units, res, set())
+    elif d["kind"] == "inst":
+        from instantiations import INST
+        c = _tup(d["cfg"])
+        h = d["header"]
+        entries = [e for e in INST[h]["entries"] if e["mode"] != "excluded"]
+        if d["entry"] == "all-entries-together":
+            ok, diag = build_inst_tu("all", h, entries, c)
+            res = {(h, c): ([] if ok else [({"id": "all-entries-together", "mode": "combined", "code": ""}, diag)])}
+        else:
+            e = [x for x in entries if x["id"] == d["entry"]]
+            if not e:
+                raise vlib.HarnessError("replay: entry %r of %s is no longer in instantiations.py" % (d["entry"], h))
+            ok, diag = build_inst_tu("e0", h, e, c)
+            res = {(h, c): ([] if ok else [(e[0], diag)])}
+        judge_inst(ctx, res)
     elif d["kind"] == "errpaths":
         cfgs = [_tup(c) for c in d["cfgs"]]
         only = set(d["k"])
